@@ -156,8 +156,13 @@ func runC14(c *Ctx) {
 		for fn := range reach {
 			names = append(names, c.U.ShortName(fn))
 			ir.Instrs(fn, func(in ssa.Instruction) {
-				if ld, ok := in.(*ssa.UnOp); ok {
-					if g, ok := ld.X.(*ssa.Global); ok && g.Pkg != nil && strings.HasPrefix(g.Pkg.Pkg.Path(), ir.ModulePrefix) {
+				// any use: a load, but also the variable's address handed to a method
+				// (a sync.Map or a mutex-protected table is state just the same)
+				for _, op := range in.Operands(nil) {
+					if *op == nil {
+						continue
+					}
+					if g, ok := (*op).(*ssa.Global); ok && g.Pkg != nil && strings.HasPrefix(g.Pkg.Pkg.Path(), ir.ModulePrefix) {
 						globalsRead[g.Name()] = c.pos(in)
 					}
 				}
@@ -169,7 +174,7 @@ func runC14(c *Ctx) {
 			r.OK("C14.3", "no-global-reads", c.U.Pos(apply.Pos()), fmt.Sprintf("%d repository functions reachable from Apply read no package-level variable", len(reach)))
 		}
 		for g, pos := range globalsRead {
-			r.Violation("C14.3", "global-read:"+g, pos, "code reachable from Apply reads package-level variable "+g+": host device information (or anything else) could be remembered between injections")
+			r.Violation("C14.3", "global-read:"+g, pos, "code reachable from Apply uses package-level variable "+g+": host device information (or anything else) could be remembered between injections")
 		}
 		// host lookup on every filling path (unix only)
 		fill := c.U.Func("cdi", "(*DeviceNode).fillMissingInfo")
